@@ -25,6 +25,7 @@ type interp struct {
 	main   *strings.Builder
 	ij     map[string]Value
 	hasIJ  bool
+	mark   bool // wrap the output of every msg in « »
 	depth  int
 	steps  int
 	res    *Result
@@ -36,8 +37,18 @@ type interp struct {
 
 // Render runs template fq of p with the given data and injected data.
 func Render(p *Program, fq string, data map[string]Value, ij map[string]Value, hasIJ bool) (res Result) {
+	return render(p, fq, data, ij, hasIJ, false)
+}
+
+// RenderMarked renders like Render with every message wrapped in the marks « and »: what a bundle of
+// identity translations whose texts carry those marks makes of the program (messages without plural).
+func RenderMarked(p *Program, fq string, data map[string]Value, ij map[string]Value, hasIJ bool) (res Result) {
+	return render(p, fq, data, ij, hasIJ, true)
+}
+
+func render(p *Program, fq string, data map[string]Value, ij map[string]Value, hasIJ bool, mark bool) (res Result) {
 	main := &strings.Builder{}
-	in := &interp{p: p, out: main, main: main, ij: ij, hasIJ: hasIJ, res: &res}
+	in := &interp{p: p, out: main, main: main, ij: ij, hasIJ: hasIJ, res: &res, mark: mark}
 	defer func() {
 		res.Out = main.String()
 		if r := recover(); r != nil {
@@ -225,7 +236,13 @@ func (in *interp) cmd(c *Cmd) {
 		in.capture(c.Body) // rendered (errors surface) but not written
 	case "debugger":
 	case "msg":
+		if in.mark {
+			in.out.WriteString("«")
+		}
 		in.msgBody(c.Body)
+		if in.mark {
+			in.out.WriteString("»")
+		}
 	default:
 		unspecified("unknown command %q", c.K)
 	}
@@ -324,6 +341,12 @@ func ApplyDirective(name string, v Value, args []Value) (Value, bool) {
 			unspecified("%s with arguments", name)
 		}
 		return v, true
+	case "verifBang":
+		// the harness's own directive, registered by the checks that use it
+		if len(args) != 0 {
+			unspecified("verifBang with arguments")
+		}
+		return S(text(v) + "!"), false
 	case "escapeHtml":
 		s := text(v)
 		if strings.IndexByte(s, 0) >= 0 {
